@@ -106,7 +106,7 @@ Proof.
   specialize (Hfold ctls acc0 Hw).
   destruct (fold_left _ ctls acc0) as [[w1 tr1] apis]. cbn [fst] in Hfold.
   destruct w1 as [x|]; [|cbn [fst]; intros y Hy; discriminate].
-  assert (Hx0 : G (set_now (N.max t (now x)) x)) by (eapply same_G; [apply n_set_now|apply Hfold; reflexivity]).
+  assert (Hx0 : G (set_now (N.max t (now x)) x)) by (apply GP_set_now; apply Hfold; reflexivity).
   set (hs := apis ++ _). clearbody hs.
   assert (Hset : forall l, okw (fst (fst (fst (let '(x1, ok) := settle fuel l rv (set_now (N.max t (now x)) x) in
                                                (Some x1, tr1, new_sends (out (set_now (N.max t (now x)) x)) (out x1), ok)))))).
